@@ -23,7 +23,7 @@ Proto == {"x", "y"}
 Ctx   == {"", "c"}
 Tpt   == {0, 7, 9}             \* 0 = unconstrained
 StrC  == {"", "s1", "s2"}      \* optional string constraint (server id, signaling id, client id)
-Url   == {"/a", "/b"}
+Url   == {"/a", "/b", "/a?q=1", "/a#f"}   \* path, query and fragment all select the handler
 Meth  == {"", "GET", "POST"}
 Addr  == {"a1", "a2"}
 Sess  == {1, 2}                \* distinct session objects
